@@ -103,10 +103,14 @@ theorem causeOf_unmarked (s s' : State E) (h1 : s'.base = s.base) (h2 : s'.ess =
   unfold causeOf C05.detect C05.detectReason
   simp [h1, h2, h3, h4, hm, hm']
 
+theorem selOf_congr (env : Env) (s s' : State E) (hc : causeOf s' = causeOf s) (hR : s'.resumed = s.resumed) :
+    selOf env s' = selOf env s := by
+  unfold selOf; rw [hc, hR]
+
 theorem info_changedOf (env : Env) (s s' : State E) (hc : causeOf s' = causeOf s) (hP : s'.P = s.P)
-    (hb : s'.base = s.base) (he : s'.ess = s.ess) (hh : isHandler s = false) :
+    (hb : s'.base = s.base) (he : s'.ess = s.ess) (hR : s'.resumed = s.resumed) (hh : isHandler s = false) :
     changedOf env s' = changedOf env s := by
-  have hcfg : cfgOf env s' = cfgOf env s := by unfold cfgOf; rw [hc]
+  have hcfg : cfgOf env s' = cfgOf env s := by unfold cfgOf; rw [hc, selOf_congr env s s' hc hR]
   have hr : handlerReasons.contains (cfgOf env s).reason = false := hh
   unfold changedOf pass
   rw [hcfg, hP, hb, he, cycle_not_handler_reason _ _ s'.now s'.now env.exec hr,
@@ -115,23 +119,25 @@ theorem info_changedOf (env : Env) (s s' : State E) (hc : causeOf s' = causeOf s
 /-- a later clock and another finalizer state do not enlarge the handling bound of an unmarked object -/
 theorem core_adjusted (env : Env) (s s' : State E) (hP : s'.P = s.P) (hb : s'.base = s.base)
     (he : s'.ess = s.ess) (h3 : s'.noticed = s.noticed) (h4 : s'.fullyHandled = s.fullyHandled)
+    (hR : s'.resumed = s.resumed)
     (hm : s.marked = false) (hm' : s'.marked = false) (hn : s.now ≤ s'.now) :
     core env s' ≤ core env s := by
   have hc := causeOf_unmarked s s' hb he h3 h4 hm hm'
-  have hcfg : cfgOf env s' = cfgOf env s := by unfold cfgOf; rw [hc]
+  have hsel := selOf_congr env s s' hc hR
+  have hcfg : cfgOf env s' = cfgOf env s := by unfold cfgOf; rw [hc, hsel]
   have hih : isHandler s' = isHandler s := by unfold isHandler; rw [hc]
   unfold core
   rw [hih]
   by_cases hpm : env.prematch = true
   · by_cases hh : isHandler s = true
     · simp only [hpm, hh, Bool.not_true, Bool.false_eq_true, if_false]
-      rw [extrasOf_eq, extrasOf_eq, hcfg, hc, hP, extras_now_indep (cfgOf env s) s.P s'.now s.now]
-      have h1 := Av_mono (env.sel (causeOf s)) s.P hn
-      have h2 := Cv_mono env.cap (env.sel (causeOf s)) s.P hn
+      rw [extrasOf_eq, extrasOf_eq, hcfg, hsel, hP, extras_now_indep (cfgOf env s) s.P s'.now s.now]
+      have h1 := Av_mono (selOf env s) s.P hn
+      have h2 := Cv_mono env.cap (selOf env s) s.P hn
       omega
     · have hh' : isHandler s = false := by simpa using hh
       simp only [hpm, hh', Bool.not_true, Bool.false_eq_true, if_false, Bool.not_false, if_true]
-      rw [info_changedOf env s s' hc hP hb he hh']
+      rw [info_changedOf env s s' hc hP hb he hR hh']
       exact Nat.le_refl _
   · simp [hpm]
 
@@ -147,7 +153,7 @@ theorem core_ge_two (env : Env) (s : State E) (hpm : env.prematch = true) (hh : 
     2 ≤ core env s := by
   unfold core
   simp only [hpm, hh, Bool.not_true, Bool.false_eq_true, if_false]
-  have := two_U_add_A_pos (env.sel (causeOf s)) s.P s.now
+  have := two_U_add_A_pos (selOf env s) s.P s.now
   omega
 
 /-- a marked object without the own finalizer: the cause is FREE, nothing is done -/
@@ -218,7 +224,7 @@ theorem step_decreases (env : Env) (wf : WF env) (hfin : AllFinal env) (s : Stat
     have hadj : adjusting env s = true := by unfold adjusting; simp [hadd]
     have hadj' : adjusting env (addState env s) = false := by
       rw [adjusting_eq]; simp [addState, hpm, hcr, hmk]
-    have hcore := core_adjusted env s (addState env s) rfl rfl rfl rfl rfl hmk hmk hlat
+    have hcore := core_adjusted env s (addState env s) rfl rfl rfl rfl rfl rfl hmk hmk hlat
     have hgA : (addState env s).gone = false := hg'
     have hpA : (addState env s).pending = true := rfl
     have hbA : bound env (addState env s) = core env (addState env s) := by
@@ -249,7 +255,7 @@ theorem step_decreases (env : Env) (wf : WF env) (hfin : AllFinal env) (s : Stat
       rw [hbR]
       simp only [if_true]
       cases hmk : s.marked
-      · have hcore := core_adjusted env s (remState env s false) rfl rfl rfl rfl rfl hmk hmk hlat
+      · have hcore := core_adjusted env s (remState env s false) rfl rfl rfl rfl rfl rfl hmk hmk hlat
         omega
       · have := core_free env (remState env s false) hmk rfl
         omega
